@@ -57,7 +57,7 @@ def setup(tier, seed):
         _ASAN["twopass"] = crain.build("twopass", asan=True)
 
 
-SHARD_TIMEOUT = 75
+SHARD_TIMEOUT = 400
 _ASAN = {}
 
 
@@ -74,7 +74,7 @@ def _asan_shard(sh):
     env = dict(os.environ, LD_PRELOAD=lib, ASAN_OPTIONS="detect_leaks=0:abort_on_error=0:exitcode=77")
     drv = os.path.join(os.path.dirname(os.path.abspath(__file__)), "c05_asan_driver.py")
     p = subprocess.run([sys.executable, drv, so, str(sh["L"]), str(sh["k"])], env=env,
-                       capture_output=True, text=True, timeout=SHARD_TIMEOUT - 20)
+                       capture_output=True, text=True, timeout=SHARD_TIMEOUT - 100)
     lines = p.stdout.strip().splitlines()
     last = lines[-1] if lines else ""
     if p.returncode == 0 and last.startswith("DONE"):
